@@ -69,6 +69,36 @@ def roundtrip(cls, line, kwargs, strict=True):
     return r
 
 
+PRIOR = {"Ace": "77 permit icmp host 9.9.9.9 any log", "Remark": "77 remark something else", "Port": "range 7 9", "Protocol": "gre", "Option": "syn fin",
+         "Address": "host 9.9.9.9", "Wildcard": "9.9.9.0 0.0.0.255", "AddressAg": "host 9.9.9.9"}
+
+
+def reuse(cls, line, kwargs):
+    """-> None or (kind, what): the rendered text assigned to an object that held something else gives what a fresh parse gives"""
+    import cisco_acl
+    C = getattr(cisco_acl, cls)
+    if cls not in PRIOR:
+        return None
+    try:
+        o1 = C(line, **kwargs)
+        t1 = o1.line
+        fresh = C(t1, **kwargs)
+        old = C(PRIOR[cls], **kwargs)
+    except (ValueError, TypeError):
+        return None
+    try:
+        old.line = t1
+    except Exception as ex:
+        return ("reuse-rejects", f"{cls}: assigning its own rendering {t1!r} to an object that held {PRIOR[cls]!r} raises {type(ex).__name__}: {ex}")
+    # (compared: the text and what the text spells out; attributes a text cannot carry, e.g. the protocol of an emptied Port, are the object's own)
+    d1, d2 = old.data(), fresh.data()
+    keys = [k for k in ("sequence", "action", "items", "ports", "operator", "number", "flags", "logs", "text", "prefix", "wildcard", "ipnet", "type") if k in d1 and k in d2]
+    diff = [k for k in keys if d1.get(k) != d2.get(k)]
+    if old.line != fresh.line or diff:
+        return ("reuse", f"{cls}({PRIOR[cls]!r}).line = {t1!r} gives text {old.line!r} / data differing in {diff}; a fresh parse gives {fresh.line!r}")
+    return None
+
+
 def roundtrip_(cls, line, kwargs, strict=True):
     import cisco_acl
     C = getattr(cisco_acl, cls)
@@ -106,6 +136,8 @@ def roundtrip_(cls, line, kwargs, strict=True):
 def check(arg):
     cls, line, kwargs, strict = arg
     r = roundtrip(cls, line, dict(kwargs), strict)
+    if r is None:
+        r = reuse(cls, line, dict(kwargs))
     if r is None:
         return [], 1
     kind, what = r
